@@ -163,7 +163,7 @@ def gen(ctx):
 
     @st.composite
     def cases(draw):
-        bank = draw(treebank(8 if quick else 11, 6))
+        bank = draw(treebank(8 if quick else 11, 6, pos=("NN", "VB", "ART", "$(", "-LRB-")))      # tags that look like brackets are tags
         nf = [m for m in all_modes if m.get("nofanout")]
         plain = [m for m in all_modes if m.get("markov") and not m.get("nofanout")]
         det = [m for m in all_modes if not m.get("markov")]
